@@ -48,7 +48,9 @@ Next == /\ Len(toks) < MaxTok
         /\ Viable(Text)
         /\ \E k \in DOMAIN TokTab : toks' = Append(toks, k)
 
-Case == LET x == Text r == ParseText(x) IN
+\* (bound variables force one evaluation of the text and of its parse; LET definitions are re-evaluated at each use)
+CaseOf(x, r) ==
   [t |-> x, ok |-> r.ok, why |-> r.why, at |-> r.i - 1, scope |-> FaultScope(x, r.why), v |-> r.v]
-Emit == CSVWrite("%1$s", <<ToJson(Case)>>, IOEnv.OUT)
+Case == CaseOf(Text, ParseText(Text))
+Emit == \A x \in {Text} : \A r \in {ParseText(x)} : CSVWrite("%1$s", <<ToJson(CaseOf(x, r))>>, IOEnv.OUT)
 =============================================================================
